@@ -820,6 +820,76 @@ class Interp:
             self.depth -= 1
             self.cur_file = saved_file
 
+    # ------------------------------------------------------------------ loop contracts (Hoare-style: init / step / exit)
+    def top_level_loop(self, fnode, ordinal):
+        loops = [st for st in fnode.body if isinstance(st, (ast.For, ast.While))]
+        if ordinal >= len(loops):
+            raise Unsupported(f"function has no top-level loop #{ordinal}")
+        return loops[ordinal]
+
+    def run_prefix(self, fn, args, kwargs, ordinal=0):
+        """Execute the statements of `fn` that precede its top-level loop #ordinal; returns (frame, loop node)."""
+        f = self.make_func(fn) if not isinstance(fn, Func) else fn
+        loop = self.top_level_loop(f.node, ordinal)
+        frame = Frame(f)
+        frame.locals.update(self.bind_args(f, list(args), dict(kwargs), None))
+        frame.yields = _YieldCollector()
+        self.cur_file = (f.filename or "?").rsplit("/src/", 1)[-1]
+        self.depth += 1
+        try:
+            for st in f.node.body:
+                if st is loop:
+                    break
+                self.exec(st, frame)
+        finally:
+            self.depth -= 1
+        return frame, loop
+
+    def loop_frame(self, fn, ordinal, local_vars):
+        """A frame of `fn` positioned at the head of loop #ordinal with the given local variables (havoc state)."""
+        f = self.make_func(fn) if not isinstance(fn, Func) else fn
+        loop = self.top_level_loop(f.node, ordinal)
+        frame = Frame(f)
+        frame.locals.update(local_vars)
+        frame.yields = _YieldCollector()
+        self.cur_file = (f.filename or "?").rsplit("/src/", 1)[-1]
+        return frame, loop
+
+    def loop_test(self, frame, loop):
+        """Truth of the while condition in the frame's state (forks)."""
+        return self.truth(self.eval(loop.test, frame), loop.test)
+
+    def loop_body_once(self, frame, loop, element=_MISSING):
+        """Execute the loop body once (for a `for` loop, `element` is bound to the target first).
+        Returns 'normal' | 'break' | 'continue'."""
+        self.depth += 1
+        try:
+            if isinstance(loop, ast.For):
+                self.assign(loop.target, element, frame)
+            try:
+                self.exec_block(loop.body, frame)
+            except _Break:
+                return "break"
+            except _Continue:
+                return "continue"
+            return "normal"
+        finally:
+            self.depth -= 1
+
+    def run_suffix(self, frame, loop):
+        """Execute the statements after the loop; returns the function's return value."""
+        body = frame.func.node.body
+        k = next(i for i, st in enumerate(body) if st is loop)
+        self.depth += 1
+        try:
+            try:
+                self.exec_block(list(loop.orelse) + body[k + 1:], frame)
+            except _Return as r:
+                return r.value
+            return None
+        finally:
+            self.depth -= 1
+
     def make_lazy_gen(self, f, frame):
         interp = self
         fname = self.cur_file
@@ -1743,6 +1813,15 @@ class Interp:
     def eval_FormattedValue(self, e, frame):
         val = self.eval(e.value, frame)
         return STR.format_value(self, val, e.conversion, "", e)
+
+
+class _YieldCollector:
+    """frame.yields for code executed piecewise by loop contracts: yields are simply collected."""
+    def __init__(self):
+        self.items = []
+
+    def emit(self, v):
+        self.items.append(v)
 
 
 class _SymComp(Exception):
